@@ -123,9 +123,9 @@ def cases(tier, seed):
 
 def targets(tier):
     k = 3 if tier == "quick" else 30
-    return {"trees_built": 350 * k, "trees_8plus_leaves": 80 * k, "fills_checked": 1200 * k, "contract_evaluations": 1500 * k,
-            "nodes_compared": 6000 * k, "plot_frames_checked": 300 * k, "kl_checked": 600 * k, "family:adjacent": 20 * k,
-            "family:lattice": 30 * k, "family:duplicates": 30 * k, "fills_with_reset": 150 * k, "fills_accumulating": 300 * k, "edge_cases_checked": 30 * k}
+    return {"trees_built": 300 * k, "trees_8plus_leaves": 80 * k, "fills_checked": 1200 * k, "contract_evaluations": 1200 * k,
+            "nodes_compared": 4500 * k, "plot_frames_checked": 300 * k, "kl_checked": 600 * k, "family:adjacent": 20 * k,
+            "family:lattice": 30 * k, "family:duplicates": 30 * k, "fills_with_reset": 150 * k, "fills_accumulating": 300 * k, "edge_cases_checked": 25 * k}
 
 
 def gen_points(rng):
